@@ -45,6 +45,30 @@ def _import():
     return R, M
 
 
+# the index types numpy itself hands out (argmax, flatnonzero, shape arithmetic); narrow / unsigned scalar types
+# wrap around in plain numpy arithmetic and are outside the statement
+NPINTS = (np.int64, np.int32, np.intp)
+
+
+def npspell(s, rng):
+    """the same index expression with numpy integer scalars instead of python ints (where they fit)"""
+    def cv(v):
+        if v is None or isinstance(v, bool):
+            return v
+        t = rng.choice(NPINTS)
+        try:
+            if np.iinfo(t).min <= v <= np.iinfo(t).max:
+                return t(v)
+        except Exception:  # pylint: disable=broad-except
+            pass
+        return v
+    if isinstance(s, slice):
+        return slice(cv(s.start), cv(s.stop))
+    if isinstance(s, tuple):
+        return tuple(npspell(x, rng) for x in s)
+    return cv(s)
+
+
 def sel_set(n, s):
     """reference: indices selected by numpy"""
     return np.arange(n)[s].tolist() if not isinstance(s, int) else [int(np.arange(n)[s])]
@@ -129,6 +153,44 @@ def run(R: Run):
             R.corr(f"c17 norm {n} {enc(k)}", g, sig="norm|int")
             if res:
                 oracle_norm(R, n, k, res[0])
+    # the same helpers with numpy integer scalars as bounds / indices / lengths / pads / scales
+    for _ in range(R.pick(4000, 40000)):
+        n = rng.randint(0, 12)
+        a, b = (rng.choice([None, rng.randint(-14, 14)]) for _ in range(2))
+        s0 = slice(a, b)
+        s1 = npspell(s0, rng)
+        nn = rng.choice([n, np.int64(n), np.int32(n)])
+        R.corr(f"c17 norm {n} {enc(s0)}", lambda: ns(roi.roi_normalise(s1, nn)), sig="norm|numpy-ints")
+        o = guarded(lambda: roi.roi_normalise(s1, nn))
+        if not isinstance(o, str):
+            oracle_norm(R, n, s0, o)
+        pad = rng.choice([0, 1, 3])
+        R.corr(f"c17 pad {n} {pad} {enc(s0)}", lambda: ns(roi.roi_pad(s1, rng.choice([pad, np.int64(pad)]), nn)), sig="pad|numpy-ints")
+        R.corr(f"c17 full {n} {enc(s0)}", lambda: bool_s(roi.roi_is_full(s1, nn)), sig="full|numpy-ints")
+        R.corr(f"c17 dim {enc(s0)}", lambda: str(int(roi.roi_shape(s1)[0])), sig="dim|numpy-ints")
+        c0, c1 = sorted([rng.randint(0, 12), rng.randint(0, 12)])
+        d0, d1 = sorted([rng.randint(0, 12), rng.randint(0, 12)])
+        sa, sb = slice(c0, c1), slice(d0, d1)
+        R.corr(f"c17 int3 {enc(sa)} {enc(sb)}", lambda: " ".join(ns(v) for v in roi.slice_intersect3(npspell(sa, rng), npspell(sb, rng))), sig="int3|numpy-ints")
+        R.corr(f"c17 int {enc(sa)} {enc(sb)}", lambda: ns(roi.roi_intersect(npspell(sa, rng), npspell(sb, rng))), sig="int|numpy-ints")
+        R.corr(f"c17 center {enc(sa)}", lambda: frac_s(roi.roi_center(npspell(sa, rng))), sig="center|numpy-ints")
+        k = rng.randint(1, 5)
+        R.corr(f"c17 down {c0} {c1} {k}", lambda: ns(roi.scaled_down_roi((npspell(sa, rng), npspell(sa, rng)), rng.choice([k, np.int64(k)]))[0]), sig="down|numpy-ints")
+        R.corr(f"c17 up {c0} {c1} {k} N", lambda: ns(roi.scaled_up_roi((npspell(sa, rng), npspell(sa, rng)), rng.choice([k, np.int64(k)]))[0]), sig="up|numpy-ints")
+
+    # N-D emptiness incl. inverted regions on every combination of axes: numpy decides
+    for nd in (1, 2, 3):
+        lim = {1: 5, 2: 4, 3: 2}[nd]
+        axes = [slice(a_, b_) for a_ in range(0, lim + 1) for b_ in range(0, lim + 1)]
+        X = np.zeros((lim + 1,) * nd)
+        for combo in itertools.product(axes, repeat=nd):
+            if nd == 3 and rng.random() < R.pick(0.6, 0.0):
+                continue
+            r_ = guarded(lambda: roi.roi_is_empty(combo if nd > 1 else combo[0]))
+            R.oracle(r_ == (X[combo].size == 0), "roi-is-empty-vs-numpy", {"roi": [enc(x) for x in combo]},
+                     f"roi_is_empty={r_} but X[roi].size={X[combo].size}")
+            R.corr(f"c17 empty {list_s(combo, enc)}", lambda: bool_s(roi.roi_is_empty(combo)), sig=f"empty|{nd}d")
+
     # large random
     for _ in range(R.pick(500, 5000)):
         n = rng.randint(0, 10**rng.randint(1, 12))
